@@ -246,7 +246,35 @@ fn gen_constructor_cases(g: &mut Gen) {
     }
 }
 
+fn gen_overflow_constructor_cases(g: &mut Gen) {
+    // element counts that do not fit in a usize: rejected, never accepted with a wrapped product
+    const H: usize = 1 << 63;
+    const M: usize = usize::MAX;
+    for shape in [
+        vec![("a", H), ("b", 2usize)],
+        vec![("a", 2), ("b", H)],
+        vec![("a", M), ("b", M)],
+        vec![("a", M), ("b", 2)],
+        vec![("a", 1 << 32), ("b", 1 << 32)],
+        vec![("a", 1 << 32), ("b", 1 << 31), ("c", 2)],
+        vec![("a", H), ("b", 2), ("c", 0)],
+        vec![("a", 0), ("b", H), ("c", 2)],
+        vec![("a", H), ("a", 2)],
+        vec![("a", M)],
+        vec![("a", 1 << 22), ("b", 1 << 21), ("c", 1 << 21), ("d", 2)],
+    ] {
+        let shape: Vec<(&'static str, usize)> = shape.iter().map(|(n, l)| (intern(n), *l)).collect();
+        for n in [0usize, 1, 2] {
+            for kind in ["from", "try_from"] {
+                g.op(format!("@ {} {} {}", kind, show_shape(&shape), n));
+                g.count("constructor.count_overflows_usize");
+            }
+        }
+    }
+}
+
 fn gen_extra_constructor_cases(g: &mut Gen) {
+    gen_overflow_constructor_cases(g);
     // Tensor::from_fn on shapes it must reject (the producer is never or partly run)
     for shape in [
         vec![("a", 0usize)],
